@@ -132,6 +132,13 @@ def wall_points(name, mirror=False):
             (rmax, zmax - 0.2), (rmax - 0.1, zmax + 0.03), (rmin + 0.2, zmax),
             (rmin, zmax - 0.08), (rmin, zmin + 0.15),
         ]
+    elif name == "W7m":
+        return wall_points("W7", not mirror)
+    elif name == "W7":  # re-entrant: a baffle enters from the outboard side above the outer lower target
+        w = [
+            (rmin, zmin), (rmax, zmin), (rmax, zmin + 0.04), (1.657, zmin + 0.04),
+            (1.6115, zmin + 0.12), (rmax, zmin + 0.12), (rmax, zmax), (rmin, zmax),
+        ]
     elif name == "none":
         return None
     else:
